@@ -95,6 +95,24 @@ def gen():
     if ih < 0 or ic < 0:
         raise SystemExit("translator: vbi_caption_channel_switched: statements not found")
     hidden_first = ih < ic
+    cmd = func_body(cap, "caption_command")
+    # PAC in roll-up mode: is the window start clamped at row 0?
+    row1_clamped = re.search(r"if\s*\(\s*row1\s*<\s*0\s*\)\s*row1\s*=\s*0\s*;", cmd) is not None
+    # roll-up command: does the erase of the displayed memory raise an event (clear())?  (finding F45a)
+    m = re.search(r"int\s+roll\s*=\s*\(c2\s*&\s*7\)\s*-\s*3\s*;(.*?)return\s*;\s*\}", cmd, flags=re.S)
+    if not m:
+        raise SystemExit("translator: roll-up command block not found")
+    ru_event = re.search(r"erase_memory\s*\([^;]*;\s*erase_memory\s*\([^;]*;\s*clear\s*\(", m.group(1)) is not None
+    # CR, roll branch: is the first update() skipped in pop-on mode?  (finding F45b)
+    m = re.search(r"word_break\s*\(cc,\s*ch,\s*1\)\s*;\s*(if\s*\(\s*ch->mode\s*!=\s*MODE_POP_ON\s*\)\s*)?update\s*\(ch\)\s*;\s*memmove", cmd)
+    if not m:
+        raise SystemExit("translator: CR roll branch not found")
+    cr_guard = m.group(1) is not None
+    # mid-row italics: does it also set the foreground to white?  (finding F46)
+    its = re.findall(r"else\s*\{\s*ch->attr\.italic\s*=\s*TRUE\s*;\s*(ch->attr\.foreground\s*=\s*VBI_WHITE\s*;)?\s*\}", cmd)
+    if len(its) != 2:
+        raise SystemExit("translator: expected the italics branch of PAC and of the mid-row codes, found %d" % len(its))
+    midrow_keeps = its[1] == ""
 
     def lst(v):
         return "[" + ", ".join(str(x) for x in v) + "]"
@@ -120,6 +138,14 @@ def gen():
            "/-- in `vbi_caption_channel_switched()`: is `ch->hidden = 0` executed before `set_cursor()`?",
            "    (`false` on the tree where finding F17 is present) -/",
            "def chswHiddenResetFirst : Bool := %s" % ("true" if hidden_first else "false"),
+           "/-- PAC in roll-up mode: `if (row1 < 0) row1 = 0;` present? -/",
+           "def pacRow1Clamped : Bool := %s" % ("true" if row1_clamped else "false"),
+           "/-- roll-up command: `clear()` (event) after the two `erase_memory()`?  (`false` = finding F45a) -/",
+           "def ruEraseRaisesEvent : Bool := %s" % ("true" if ru_event else "false"),
+           "/-- CR, roll branch: first `update(ch)` guarded by `ch->mode != MODE_POP_ON`?  (`false` = finding F45b) -/",
+           "def crPopOnNoUpdate : Bool := %s" % ("true" if cr_guard else "false"),
+           "/-- mid-row italics leaves `attr.foreground` alone?  (`false` = finding F46) -/",
+           "def midrowItalicsKeepsColour : Bool := %s" % ("true" if midrow_keeps else "false"),
            "", "end Zvbi.Gen.Cc", ""]
     return write_if_changed(os.path.join(OUT, "CcConsts.lean"), "\n".join(out))
 
